@@ -1,6 +1,8 @@
 import ObiVerif.Model.WriteErr
 import ObiVerif.Model.WriteDev
 import ObiVerif.Model.WriteProc
+import ObiVerif.Model.WriteKind
+import ObiVerif.Model.WritePgzip
 import ObiVerif.Driver.Util
 /-! line protocol for C18
 
@@ -13,6 +15,10 @@ import ObiVerif.Driver.Util
   process; result `exit0|exit1` from the process model
 * `disp <writer> gz=<0|1> own=1 / k=… cf=… zlen=… 0:<nseq>:<text of the file> / …` the files written by the real
   `WriterDispatcher`; same model as `multi`
+* an optional `ek=<kind>` field before the chunks of any of the above: the kind of error injected (not read by the model)
+* `wf gz=<0|1> own=<0|1> cf=<0|1> ek=<kind> ks=<k,k,…> zlen=<n> <chunk>…` `obiutils.Wfile` driven directly, one run per
+  fault offset `k`; result: numbers of fatal / ok runs, sum of the bytes held by the sink, first offset that is ok, and
+  (uncompressed) the sum of the indexes of the first call returning the error
 * `cmd <command> <scenario> …` a real command in a subprocess; `nofault…` scenarios must exit 0, all the others
   non-zero (process model with one failing writer)
 -/
@@ -42,12 +48,98 @@ def one (w : String) (gz k cf zlen own : Nat) (arr : List (Nat × Bytes)) : Opti
   if gz = 1 then
     -- error visibility schedule: every other check sees a pushed error (any schedule gives the same result)
     let rep : Nat → Bool := fun i => i % 2 = 1
-    if isRaw w then some (writeRawZ (lenCodec zlen) rep 4096 k (cf = 1) (own = 1) arr)
-    else if w = "json" then some (writeJsonZ (lenCodec zlen) rep 4096 k (cf = 1) (own = 1) arr)
+    -- the transcribed pgzip writer (`Model/WritePgzip.lean`) under some schedule of its listener goroutine: equal to
+    -- the abstract one (`Props/C18P.lean`, `pz_raw_refines_gz`); both are run and compared
+    let sch : Sched := ⟨fun i => (i + k) % 3, fun i => i % 2 = 0⟩
+    let same (r r' : Outcome × Bytes) : Option (Outcome × Bytes) :=
+      if r.1 == r'.1 && r.2.length == r'.2.length then some r else none
+    if isRaw w then
+      same (writeRawZ (lenCodec zlen) rep 4096 k (cf = 1) (own = 1) arr)
+        (writeRawP (lenPCodec zlen) sch 4096 k (cf = 1) (own = 1) arr)
+    else if w = "json" then
+      same (writeJsonZ (lenCodec zlen) rep 4096 k (cf = 1) (own = 1) arr)
+        (writeJsonP (lenPCodec zlen) sch 4096 k (cf = 1) (own = 1) arr)
     else none
   else if isRaw w then some (writeRawO 4096 k (cf = 1) (own = 1) arr)
   else if w = "json" then some (writeJsonO 4096 k (cf = 1) (own = 1) arr)
   else none
+
+/-- an optional `ek=<kind>` field (the KIND of error injected: plain, EPIPE, ENOSPC, …) in front of the chunks.  The
+model does not read it: `Props/C18K.lean` proves that outcome and sink do not depend on the error value. -/
+def takeEk (l : List String) : Nat :=
+  match l with
+  | x :: _ => (kv "ek" x).getD 0
+  | [] => 0
+
+/-- the uncompressed writer in the model that carries the error VALUE (`Model/WriteKind.lean`): the sink returns the
+error `ek` on every failing `Write` and at `Close`, the writer applies the code's test `err != nil`.  Equal to
+`writeRawO` / `writeJsonO` for every `ek` (`Props/C18K.lean`, `rawE_eq_rawO_all`); both are run and compared. -/
+def oneE (w : String) (k cf own ek : Nat) (arr : List (Nat × Bytes)) : Option (Outcome × Bytes) :=
+  let cerr : Option Nat := if cf = 1 then some ek else none
+  if isRaw w then
+    let r := writeRawE (fun _ => true) 4096 k (fun _ => ek) cerr (own = 1) arr
+    let r' := writeRawO 4096 k (cf = 1) (own = 1) arr
+    if r.1 == r'.1 && r.2.length == r'.2.length then some r else none
+  else if w = "json" then
+    let r := writeJsonE (fun _ => true) 4096 k (fun _ => ek) cerr (own = 1) arr
+    let r' := writeJsonO 4096 k (cf = 1) (own = 1) arr
+    if r.1 == r'.1 && r.2.length == r'.2.length then some r else none
+  else none
+
+def dropEk (l : List String) : List String :=
+  match l with
+  | x :: t => if x.startsWith "ek=" then t else l
+  | [] => []
+
+/-- the bytes of a `wf` chunk: hex, or `g<seed>x<len>` (a linear congruential generator shared with the harness) -/
+def genBytes (seed len : Nat) : Bytes :=
+  let rec go : Nat → Nat → List UInt8 → List UInt8
+    | 0, _, acc => acc.reverse
+    | n+1, x, acc =>
+      let x' := (x * 1103515245 + 12345) % 2147483648
+      go n x' ((match (x' / 65536) % 4 with | 0 => 97 | 1 => 99 | 2 => 103 | _ => 116) :: acc)
+  go len seed []
+
+def parseWfChunk (s : String) : Option Bytes :=
+  if s.startsWith "g" then
+    match (s.drop 1).toString.splitOn "x" with
+    | [a, b] => do
+      let a ← a.toNat?
+      let b ← b.toNat?
+      pure (genBytes a b)
+    | _ => none
+  else unhex s
+
+/-- index of the first call of `Wfile` returning an error (uncompressed; `chunks.length` = `Close`, `+1` = none) -/
+def firstErrIdx (b : BW) (closeErr : Bool) : Nat → List Bytes → Nat
+  | i, [] => if b.flush.err || closeErr then i else i + 1
+  | i, c :: cs => if (b.write c).err then i else firstErrIdx (b.write c) closeErr (i + 1) cs
+
+structure WfAcc where
+  nfatal : Nat := 0
+  nok : Nat := 0
+  sumgot : Nat := 0
+  firstok : Option Nat := none
+  sumfirst : Nat := 0
+
+/-- `wf`: `obiutils.Wfile` driven directly (`Write` of every chunk, `Close`), one run per fault offset -/
+def runWf (gz own cf zlen : Nat) (ks : List Nat) (chunks : List Bytes) : String :=
+  let arr := (List.range chunks.length).zip chunks
+  let acc := ks.foldl (fun (a : WfAcc) k =>
+    let r : Outcome × Bytes :=
+      if gz = 1 then
+        let r := writeRawZ (lenCodec zlen) (fun i => i % 3 = 0) 4096 k (cf = 1) (own = 1) arr
+        let r' := writeRawP (lenPCodec zlen) ⟨fun i => (i * 7 + k) % 4, fun i => (i + k) % 2 = 0⟩ 4096 k (cf = 1) (own = 1) arr
+        if r.1 == r'.1 && r.2.length == r'.2.length then r else (if r.1 == .ok then .fatal else .ok, r.2)
+      else writeRawO 4096 k (cf = 1) (own = 1) arr
+    let fe := if gz = 1 then 0 else firstErrIdx ⟨4096, [], false, ⟨k, [], cf = 1⟩⟩ (cf = 1 && own = 1) 0 chunks
+    match r.1 with
+    | .ok => { a with nok := a.nok + 1, sumgot := a.sumgot + r.2.length, sumfirst := a.sumfirst + fe,
+                      firstok := match a.firstok with | none => some k | some x => some x }
+    | .fatal => { a with nfatal := a.nfatal + 1, sumgot := a.sumgot + r.2.length, sumfirst := a.sumfirst + fe }) {}
+  let fo := match acc.firstok with | none => "-1" | some k => toString k
+  let base := s!"n={ks.length} fatal={acc.nfatal} ok={acc.nok} sumgot={acc.sumgot} firstok={fo}"
+  if gz = 1 then base else base ++ s!" sumfirst={acc.sumfirst}"
 
 def parseBeh (s : String) : Option (Nat → Nat → Nat → Nat × Bool) :=
   match s.splitOn ":" with
@@ -76,7 +168,7 @@ def runMulti (w : String) (gz own : Nat) (files : List (List String)) : String :
   let rs := files.mapM fun f =>
     match f with
     | k :: cf :: zl :: rest =>
-      match kv "k" k, kv "cf" cf, kv "zlen" zl, rest.mapM parseChunk with
+      match kv "k" k, kv "cf" cf, kv "zlen" zl, (dropEk rest).mapM parseChunk with
       | some k, some cf, some zlen, some arr => one w gz k cf zlen own arr
       | _, _, _, _ => none
     | _ => none
@@ -97,8 +189,17 @@ def run (line : String) : String :=
     | some 0 => "exit0"
     | some _ => "exit-nonzero"
     | none => "no-exit"
+  | "wf" :: gz :: own :: cf :: ek :: ks :: zl :: rest =>
+    match kv "gz" gz, kv "own" own, kv "cf" cf, kv "ek" ek, kv "zlen" zl, rest.mapM parseWfChunk with
+    | some gz, some own, some cf, some _, some zlen, some chunks =>
+      if ks.startsWith "ks=" then
+        match ((ks.drop 3).toString.splitOn ",").mapM String.toNat? with
+        | some ks => runWf gz own cf zlen ks chunks
+        | none => "bad-op"
+      else "bad-op"
+    | _, _, _, _, _, _ => "bad-op"
   | "dev" :: w :: beh :: cf :: own :: rest =>
-    match parseBeh beh, kv "cf" cf, kv "own" own, rest.mapM parseChunk with
+    match parseBeh beh, kv "cf" cf, kv "own" own, (dropEk rest).mapM parseChunk with
     | some beh, some cf, some own, some arr =>
       if isRaw w then showOut (writeRawDev 4096 beh (cf = 1) (own = 1) arr)
       else if w = "json" then showOut (writeJsonDev 4096 beh (cf = 1) (own = 1) arr)
@@ -114,9 +215,9 @@ def run (line : String) : String :=
     | some gz, some own => runMulti w gz own (splitSlash rest)
     | _, _ => "bad-op"
   | w :: gz :: k :: cf :: zl :: own :: rest =>
-    match kv "gz" gz, kv "k" k, kv "cf" cf, kv "zlen" zl, kv "own" own, rest.mapM parseChunk with
+    match kv "gz" gz, kv "k" k, kv "cf" cf, kv "zlen" zl, kv "own" own, (dropEk rest).mapM parseChunk with
     | some gz, some k, some cf, some zlen, some own, some arr =>
-      match one w gz k cf zlen own arr with
+      match (if gz = 1 then one w gz k cf zlen own arr else oneE w k cf own (takeEk rest) arr) with
       | some r => showOut r
       | none => "bad-op"
     | _, _, _, _, _, _ => "bad-op"
